@@ -260,6 +260,9 @@ def explore(run, tier):
             ('A\\B\\C\\2000      N  NZL', d43('A', 'B', 'C', '2000', 'N  ', 'NZL')),
             ('A\\B\\C\\          NSWAUS', d43('A', 'B', 'C', '', 'NSW', 'AUS')),
             ('A\\B\\C\\2000      NSWAU ', {}),
+            ('A\\B\\C\\2000      NSWA\xa0S', {}),          # a no-break space is white space: no country code
+            ('A\\B\\C\\2000      NSW\x85US', {}),
+            ('A\\B\\C\\2000      NSWA\tS', {}),
             ('A\\B\\C\\2000     NSWAUS', {}),
             ('NO SEPARATORS HERE', {}))):
         for codec in codecs3:
